@@ -795,8 +795,12 @@ class SoftwareSwitchBase (object):
                         ofp=ofp)
       return
     (packet, in_port) = self._packet_buffer[buffer_id]
-    self._process_actions_for_packet(actions, packet, in_port, ofp)
-    self._packet_buffer[buffer_id] = None
+    try:
+      self._process_actions_for_packet(actions, packet, in_port, ofp)
+    finally:
+      # The controller has used the buffer: release it even if an output
+      # fails, or the slot would stay occupied for ever.
+      self._packet_buffer[buffer_id] = None
 
   def _process_actions_for_packet (self, actions, packet, in_port, ofp=None):
     """
